@@ -54,6 +54,10 @@ def gen_scene(rng, n, m, flavor="mixed", dim=None, mode=None, policy=None, fpv=N
             targets.append("FP")
         if rng.random() < 0.25 and len(targets) > 1:
             targets.pop(rng.randrange(len(targets)))          # some GT label without a threshold
+        if rng.random() < 0.15 and targets:
+            # one label listed TWICE (what merge_similar_labels makes of car / truck), each entry with its own radius: the library's
+            # documented lookup resolves the FIRST entry (round 5 of DESIGN section 9, C01_j)
+            targets.insert(rng.randrange(len(targets) + 1), rng.choice(targets))
     if (targets is None and rng.random() < 0.6) or (targets is not None and rng.random() < 0.3):
         thresholds = None
     elif targets is None:
